@@ -6,6 +6,7 @@ C01.class  each size-class branch implies the value fits the length form it writ
 C01.tags   every control byte the encoder emits is dispatched by the decoder with the matching length reader
 C01.dbl    double-byte token arithmetic is inverse
 C01.pack   nibble / hex packing tables are inverse; packed header bit layout agrees
+C01.unpack packed body: writer nibble placement and filler; reader abstractly executed for every (kind, header byte)
 C01.dict   dictionary sizes stay below the control bytes
 C01.eq     ProtocolTreeNode.__eq__ compares every component and matches children in both directions
 """
@@ -629,6 +630,7 @@ def rule_pack(ctx):
     pb = ctx.repo.method(ENC, "WriteEncoder", "packByte")
     ub = ctx.repo.method(DEC, "ReadDecoder", "unpackByte")
     kinds = sorted(ctx.units.get("C01.encoder_control_bytes", {}).get("packed", {"251": 8, "255": 8}))
+    tables = {}
     for kind in [int(k) for k in kinds]:
         pack = {}
         for n in range(256):
@@ -652,6 +654,7 @@ def rule_pack(ctx):
                 return
             unpack[v] = a[0]
         bad = {n: (v, unpack.get(v)) for n, v in pack.items() if not (0 <= v <= 15) or unpack.get(v) != n}
+        tables[kind] = (pack, unpack)
         w = where(ENC, "WriteEncoder.packByte", pb.lineno)
         ctx.check("C01.pack", not bad and len(pack) >= 10, w, "pack table %d (%d symbols)" % (kind, len(pack)),
                   "unpack(pack(c)) != c for %s" % {chr(n): x for n, x in list(bad.items())[:5]}, "unpack∘pack is the identity on %r" % "".join(chr(n) for n in sorted(pack)))
@@ -691,6 +694,418 @@ def rule_pack(ctx):
                 masks.add(a[0])
     ctx.check("C01.pack", {0x80, 0x7F} <= masks, where(DEC, "ReadDecoder.readPacked8", rp.lineno), "header masks %s" % sorted(masks),
               "reader must split the header with masks 0x80 (flag) and 0x7F (length); found %s" % [hex(m) for m in sorted(masks)], "reader splits flag 0x80 / length 0x7F")
+    return tables
+
+
+# ------------------------------------------------------------------ C01.unpack
+class _Undecided(Exception):
+    pass
+
+
+class PackedWalk:
+    """Abstract execution of ReadDecoder.readPacked8 for one (kind, header byte): the kind and the header are concrete
+    (both range over finite byte domains that are enumerated), the packed bytes stay symbolic.  Names are classified as
+    BYTES (what readArray returned), NIB (the hexlified text), LEN (len(NIB) = 2 * count), CHAR (NIB[i]), VAL (the nibble
+    value of CHAR); everything else is constant-folded.  The loop body is evaluated per (is-last-position, nibble value).
+    Result: ('loop', {(last, v): 'skip' | ('unpack', v') | 'raw' | 'none'}) or ('slice', lo, hi, upper)."""
+
+    def __init__(self, ctx, dec, fn, kind, hdr):
+        from ..cfg import static_truth
+        self.static_truth = static_truth
+        self.ctx, self.dec, self.fn = ctx, dec, fn
+        ps = [a.arg for a in fn.args.args][1:]
+        if len(ps) != 2:
+            raise _Undecided("readPacked8 signature changed: %s" % ps)
+        self.kparam, self.dparam = ps
+        self.kind, self.hdr = kind, hdr
+        self.count = None
+        self.env = {self.kparam: K(kind)}
+        self.sym = {}
+        self.upper = {}
+        self.out_name = None
+        self.result = None
+        self.loop_table = None
+
+    def ev(self, e, extra=None):
+        env = dict(self.env)
+        if extra:
+            env.update(extra)
+        return Evaluator(self.ctx.repo, self.dec.module, self.dec, env).ev(e)
+
+    def truth(self, test, extra=None):
+        t = self.static_truth(test)
+        if t is not None:
+            return t
+        if isinstance(test, ast.BoolOp):
+            vals = [self.truth(v, extra) for v in test.values]
+            if isinstance(test.op, ast.And):
+                return False if any(v is False for v in vals) else (True if all(v is True for v in vals) else None)
+            return True if any(v is True for v in vals) else (False if all(v is False for v in vals) else None)
+        if isinstance(test, ast.Compare) and len(test.ops) == 1 and isinstance(test.ops[0], (ast.Is, ast.IsNot)) and \
+                isinstance(test.left, ast.Call) and isinstance(test.left.func, ast.Name) and test.left.func.id == "type":
+            return None      # python2/3 element-type test: both arms are examined by the caller
+        a = alts(self.ev(test, extra))
+        if a is not None and len(a) == 1:
+            return bool(a[0])
+        return None
+
+    def names(self, e):
+        return {n.id for n in ast.walk(e) if isinstance(n, ast.Name)}
+
+    def classify(self, e, loopvar=None):
+        """symbolic class of an expression or None"""
+        if isinstance(e, ast.IfExp):
+            t = self.truth(e.test)
+            if t is not None:
+                return self.classify(e.body if t else e.orelse, loopvar)
+            a, b = self.classify(e.body, loopvar), self.classify(e.orelse, loopvar)
+            return a if a == b else None
+        if isinstance(e, ast.Name):
+            return self.sym.get(e.id)
+        if isinstance(e, ast.Call):
+            f = e.func
+            fname = f.attr if isinstance(f, ast.Attribute) else (f.id if isinstance(f, ast.Name) else None)
+            if fname == "readArray" and is_self_attr(f, "readArray"):
+                c = alts(self.ev(e.args[0])) if e.args else None
+                if not c or len(c) != 1:
+                    raise _Undecided("byte count passed to readArray is not determined by the header: %s" % unparse(e))
+                self.count = c[0]
+                return "BYTES"
+            if fname in ("bytearray", "bytes", "str") and len(e.args) == 1 and self.classify(e.args[0], loopvar) == "BYTES":
+                return "BYTES"
+            if fname == "hexlify" and len(e.args) == 1 and self.classify(e.args[0], loopvar) == "BYTES":
+                return "NIBL"
+            if fname in ("upper", "lower") and isinstance(f, ast.Attribute) and not e.args and self.classify(f.value, loopvar) in ("NIBL", "NIBU"):
+                return "NIBU" if fname == "upper" else "NIBL"
+            if fname == "len" and len(e.args) == 1 and self.classify(e.args[0], loopvar) in ("NIBL", "NIBU"):
+                return "LEN"
+            if fname == "chr" and len(e.args) == 1 and self.classify(e.args[0], loopvar) in ("CHARL", "CHARU"):
+                return self.classify(e.args[0], loopvar)
+            if fname == "ord" and len(e.args) == 1:
+                a = e.args[0]
+                if self.classify(a, loopvar) in ("CHARL", "CHARU"):
+                    return self.classify(a, loopvar)
+                # ord(binascii.unhexlify("0%s" % CHAR)) -> nibble value
+                if isinstance(a, ast.Call) and getattr(a.func, "attr", None) == "unhexlify" and len(a.args) == 1:
+                    b = a.args[0]
+                    if isinstance(b, ast.BinOp) and isinstance(b.op, ast.Mod) and isinstance(b.left, ast.Constant) and b.left.value == "0%s" \
+                            and self.classify(b.right, loopvar) in ("CHARL", "CHARU"):
+                        return "VAL"
+            if fname == "int" and len(e.args) == 2 and self.classify(e.args[0], loopvar) in ("CHARL", "CHARU") and alts(self.ev(e.args[1])) == [16]:
+                return "VAL"
+        if isinstance(e, ast.Subscript) and not isinstance(e.slice, ast.Slice):
+            base = self.classify(e.value, loopvar)
+            if base in ("NIBL", "NIBU") and isinstance(e.slice, ast.Name) and e.slice.id == loopvar:
+                return "CHAR" + base[-1]
+        return None
+
+    # -- statements outside the loop
+    def block(self, stmts):
+        for s in stmts:
+            r = self.stmt(s)
+            if r == "return":
+                return r
+        return None
+
+    def stmt(self, s):
+        if isinstance(s, ast.Expr) and isinstance(s.value, ast.Constant):
+            return None
+        if isinstance(s, ast.Assign) and len(s.targets) == 1 and isinstance(s.targets[0], ast.Name):
+            name, v = s.targets[0].id, s.value
+            pre = self.ev(v)
+            c = self.classify(v)
+            sl = self.slice_of(v)
+            self.sym.pop(name, None)
+            self.env.pop(name, None)
+            if isinstance(v, ast.Call) and is_self_attr(v.func, "readInt8") and self.count is None and "HDR" not in self.sym.values():
+                self.env[name] = K(self.hdr)
+                self.sym[name] = "HDR"
+                return None
+            if isinstance(v, ast.List) and not v.elts:
+                self.sym[name] = "OUT"
+                self.out_name = name
+                return None
+            if c == "LEN":
+                self.env[name] = K(2 * self.count)
+                return None
+            if c in ("BYTES", "NIBL", "NIBU"):
+                self.sym[name] = c
+                return None
+            if sl is not None:
+                self.sym[name] = "OUT"
+                self.out_name = name
+                self.result = ("slice",) + sl
+                return None
+            val = pre
+            if alts(val) is None:
+                if self.names(v) & (set(self.sym) - {k for k, c in self.sym.items() if c == "HDR"}):
+                    raise _Undecided("unrecognised use of the packed bytes: %s" % norm(s))
+                self.sym[name] = "UNK"
+            else:
+                self.env[name] = val
+            return None
+        if isinstance(s, ast.If):
+            t = self.truth(s.test)
+            if t is None:
+                raise _Undecided("branch condition not decided by (kind, header): %s" % unparse(s.test))
+            return self.block(s.body if t else s.orelse)
+        if isinstance(s, ast.For):
+            self.loop(s)
+            return None
+        if isinstance(s, ast.Return):
+            if isinstance(s.value, ast.Name) and self.sym.get(s.value.id) == "OUT":
+                if self.result is None:
+                    self.result = ("loop", self.loop_table or {})
+                return "return"
+            sl = self.slice_of(s.value) if s.value is not None else None
+            if sl is not None:
+                self.result = ("slice",) + sl
+                return "return"
+            raise _Undecided("returned value is not the output list: %s" % norm(s))
+        raise _Undecided("statement kind not modelled: %s" % norm(s))
+
+    def slice_of(self, e):
+        """e is list(NIB[lo:hi]) / map(ord, list(NIB[lo:hi])) / NIB[lo:hi] (possibly under a version IfExp) -> (lo, hi, upper)"""
+        if isinstance(e, ast.IfExp):
+            t = self.truth(e.test)
+            if t is None:
+                return None
+            return self.slice_of(e.body if t else e.orelse)
+        if isinstance(e, ast.Call) and isinstance(e.func, ast.Name) and e.func.id in ("list", "bytearray", "tuple") and len(e.args) == 1:
+            return self.slice_of(e.args[0])
+        if isinstance(e, ast.Call) and isinstance(e.func, ast.Name) and e.func.id == "map" and len(e.args) == 2 and unparse(e.args[0]) == "ord":
+            return self.slice_of(e.args[1])
+        if isinstance(e, ast.Subscript) and isinstance(e.slice, ast.Slice) and self.classify(e.value) in ("NIBL", "NIBU") and e.slice.step is None:
+            lo = alts(self.ev(e.slice.lower)) if e.slice.lower is not None else [None]
+            hi = alts(self.ev(e.slice.upper)) if e.slice.upper is not None else [None]
+            if not lo or not hi or len(lo) != 1 or len(hi) != 1:
+                raise _Undecided("slice bounds not constant: %s" % unparse(e))
+            return (lo[0], hi[0], self.classify(e.value) == "NIBU")
+        return None
+
+    # -- the per-nibble loop
+    def loop(self, s):
+        it = s.iter
+        ok = isinstance(s.target, ast.Name) and isinstance(it, ast.Call) and isinstance(it.func, ast.Name) and it.func.id == "range"
+        if ok:
+            bounds = [alts(self.ev(a)) for a in it.args]
+            ok = all(b and len(b) == 1 for b in bounds)
+        if not ok or self.count is None:
+            raise _Undecided("loop is not `for i in range(len(hex text))`: %s" % unparse(it))
+        r = range(*[b[0] for b in bounds])
+        D = 2 * self.count
+        if (r.start, r.stop, r.step) != (0, D, 1):
+            self.loop_table = {"range": (r.start, r.stop, r.step)}
+            return
+        lv = s.target.id
+        table = {}
+        positions = {True: [D - 1], False: [i for i in sorted({0, 1, D - 2}) if 0 <= i < D - 1]}
+        for last, idxs in positions.items():
+            for v in range(16):
+                outs = set()
+                for i in idxs:
+                    outs.add(self.body_once(s.body, lv, i, v))
+                if len(outs) > 1:
+                    raise _Undecided("loop body treats non-final positions differently: %s" % sorted(map(str, outs)))
+                if outs:
+                    table[(last, v)] = outs.pop()
+        self.loop_table = table
+
+    def body_once(self, stmts, lv, i, v):
+        saved_env, saved_sym = dict(self.env), dict(self.sym)
+        self.env[lv] = K(i)
+        emitted = []
+        try:
+            self.loop_block(stmts, lv, v, emitted)
+        finally:
+            self.env, self.sym = saved_env, saved_sym
+        if not emitted:
+            return "none"
+        if len(emitted) > 1:
+            raise _Undecided("more than one output per nibble")
+        return emitted[0]
+
+    def loop_block(self, stmts, lv, v, emitted):
+        for s in stmts:
+            if isinstance(s, ast.Assign) and len(s.targets) == 1 and isinstance(s.targets[0], ast.Name):
+                name = s.targets[0].id
+                c = self.classify(s.value, lv)
+                val = self.ev(s.value)
+                self.sym.pop(name, None)
+                self.env.pop(name, None)
+                if c in ("CHARL", "CHARU"):
+                    self.sym[name] = c
+                elif c == "VAL":
+                    self.env[name] = K(v)
+                else:
+                    if alts(val) is None:
+                        raise _Undecided("loop assignment not modelled: %s" % norm(s))
+                    self.env[name] = val
+            elif isinstance(s, ast.If):
+                t = self.truth(s.test)
+                if t is None:
+                    raise _Undecided("loop condition not decided by (kind, position, nibble): %s" % unparse(s.test))
+                r = self.loop_block(s.body if t else s.orelse, lv, v, emitted)
+                if r:
+                    return r
+            elif isinstance(s, ast.Continue):
+                if not emitted:
+                    emitted.append("skip")
+                return "continue"
+            elif isinstance(s, ast.Expr) and isinstance(s.value, ast.Call) and isinstance(s.value.func, ast.Attribute) and s.value.func.attr == "append" \
+                    and isinstance(s.value.func.value, ast.Name) and self.sym.get(s.value.func.value.id) == "OUT" and len(s.value.args) == 1:
+                a = s.value.args[0]
+                c = self.classify(a, lv)
+                if c in ("CHARL", "CHARU"):
+                    emitted.append("raw" + c[-1])
+                elif isinstance(a, ast.Call) and is_self_attr(a.func, "unpackByte") and len(a.args) == 2:
+                    kk, vv = alts(self.ev(a.args[0])), alts(self.ev(a.args[1]))
+                    if not kk or not vv or len(kk) != 1 or len(vv) != 1:
+                        raise _Undecided("unpackByte arguments not determined: %s" % unparse(a))
+                    emitted.append(("unpack", kk[0], vv[0]))
+                else:
+                    raise _Undecided("appended value not modelled: %s" % unparse(a))
+            elif isinstance(s, ast.Expr) and isinstance(s.value, ast.Constant):
+                pass
+            else:
+                raise _Undecided("loop statement not modelled: %s" % norm(s))
+        return None
+
+    def run(self):
+        self.block(self.fn.body)
+        if self.result is None:
+            raise _Undecided("no return of the output list found")
+        return self.result
+
+
+def norm(s):
+    from ..repo import norm_stmt
+    return norm_stmt(s)
+
+
+def rule_unpack(ctx, tables):
+    """decoder side of packed strings: for every kind and every header byte the reader emits exactly the symbols the
+    writer packed (unpack table applied to every data nibble, the odd-length filler dropped, nothing else dropped)."""
+    enc = ctx.repo.cls(ENC, "WriteEncoder")
+    dec = ctx.repo.cls(DEC, "ReadDecoder")
+    tp = ctx.repo.method(ENC, "WriteEncoder", "tryPackAndWriteHeader")
+    rp = ctx.repo.method(DEC, "ReadDecoder", "readPacked8")
+    wenc = where(ENC, "WriteEncoder.tryPackAndWriteHeader", tp.lineno)
+    # -- writer layout: nibble i goes to byte i//2, high nibble first; filler 15 iff the length is odd
+    ps = [a.arg for a in tp.args.args][1:]
+    sizevar = None
+    for s in tp.body:
+        if isinstance(s, ast.Assign) and isinstance(s.value, ast.Call) and unparse(s.value.func) == "len" and len(ps) >= 2 and unparse(s.value.args[0]) == ps[1]:
+            sizevar = s.targets[0].id
+    shift = index = filler = None
+    for n in ast.walk(tp):
+        if isinstance(n, ast.AugAssign) and isinstance(n.op, ast.BitOr) and isinstance(n.target, ast.Subscript):
+            if isinstance(n.value, ast.BinOp) and isinstance(n.value.op, ast.LShift):
+                shift, index = n.value.right, n.target.slice
+            else:
+                filler = n
+    ev = Evaluator(ctx.repo, enc.module, enc)
+    if shift is None or filler is None or sizevar is None:
+        ctx.undecided("C01.unpack", wenc, tp, "writer's nibble placement / filler statement not recognised")
+        return
+    loopvars = [n.target.id for n in ast.walk(tp) if isinstance(n, ast.For) and isinstance(n.target, ast.Name)]
+    lv = loopvars[0] if loopvars else "i"
+    def loop_env(i):
+        env = {lv: K(i)}
+        for n in ast.walk(tp):
+            if isinstance(n, ast.For):
+                for st in n.body:
+                    if isinstance(st, ast.Assign) and len(st.targets) == 1 and isinstance(st.targets[0], ast.Name):
+                        val = Evaluator(ctx.repo, enc.module, enc, env).ev(st.value)
+                        if alts(val) is not None:
+                            env[st.targets[0].id] = val
+        return env
+    sh = [alts(Evaluator(ctx.repo, enc.module, enc, loop_env(i)).ev(shift)) for i in range(6)]
+    ix = [alts(Evaluator(ctx.repo, enc.module, enc, loop_env(i)).ev(index)) for i in range(6)]
+    ok = sh == [[4], [0]] * 3 and ix == [[0], [0], [1], [1], [2], [2]]
+    ctx.check("C01.unpack", ok, wenc, "arr[%s] |= packByte << %s" % (unparse(index), unparse(shift)),
+              "writer must place symbol i in byte i//2, high nibble first (the reader hexlifies high nibble first); found shifts %s, indices %s" % (sh, ix),
+              "symbol i -> byte i//2, high nibble first")
+    fill_val = alts(ev.ev(filler.value))
+    fill_idx = alts(ev.ev(filler.target.slice))
+    # the filler statement must run exactly when the length is odd
+    guard = None
+    for n in ast.walk(tp):
+        if isinstance(n, ast.If) and any(x is filler for b in n.body for x in ast.walk(b)):
+            guard = n.test
+    odd = None
+    if guard is not None:
+        tv = [alts(Evaluator(ctx.repo, enc.module, enc, {sizevar: K(z)}).ev(guard)) for z in range(1, 128)]
+        if all(t is not None and len(t) == 1 for t in tv):
+            odd = all(bool(t[0]) == (z % 2 == 1) for t, z in zip(tv, range(1, 128)))
+    ctx.check("C01.unpack", (fill_val == [15] and fill_idx == [-1] and odd) if odd is not None else None, wenc, filler,
+              "writer must or the filler nibble 15 into the last byte exactly when the length is odd; found value %s index %s guard %s" % (fill_val, fill_idx, unparse(guard) if guard is not None else None),
+              "filler 15 in the low nibble of the last byte iff the length is odd")
+    # -- reader, abstractly executed per (kind, header byte)
+    counts = list(range(1, 128)) if ctx.tier == "thorough" else [1, 2, 3, 64, 127]
+    ctx.units["C01.unpack_headers"] = {"kinds": sorted(tables), "counts": len(counts), "flags": 2}
+    HEXU, HEXL = "0123456789ABCDEF", "0123456789abcdef"
+    for kind in sorted(tables):
+        pack, unpack = tables[kind]
+        symbols = {v: unpack.get(v) for v in sorted(set(pack.values()))}
+        for flag in (0, 1):
+            w = where(DEC, "ReadDecoder.readPacked8", rp.lineno)
+            label = "kind %d, odd-length flag %d" % (kind, flag)
+            bad = None
+            try:
+                for c in counts:
+                    res = PackedWalk(ctx, dec, rp, kind, (flag << 7) | c).run()
+                    bad = unpack_obligation(res, kind, flag, c, symbols, HEXU, HEXL)
+                    if bad:
+                        bad = "%s (header byte 0x%02x)" % (bad, (flag << 7) | c)
+                        break
+            except _Undecided as e:
+                ctx.undecided("C01.unpack", w, label, str(e))
+                continue
+            ctx.check("C01.unpack", not bad, w, label, bad or "", "every data nibble is mapped through the kind's unpack table, the filler is dropped iff the flag is set (%d header bytes)" % len(counts))
+
+
+def unpack_obligation(res, kind, flag, count, symbols, HEXU, HEXL):
+    D = 2 * count
+    if res[0] == "slice":
+        lo, hi, upper = res[1:]
+        hexa = HEXU if upper else HEXL
+        start = 0 if lo is None else (lo if lo >= 0 else max(D + lo, 0))
+        stop = D if hi is None else (hi if hi >= 0 else max(D + hi, 0))
+        want_stop = D - 1 if flag else D
+        if start != 0 or stop != want_stop:
+            return "reader returns hex text [%s:%s] of %d nibbles but the writer packed %d symbols" % (lo, hi, D, want_stop)
+        wrong = {v: (hexa[v], chr(c) if c is not None else None) for v, c in symbols.items() if c is None or hexa[v] != chr(c)}
+        if wrong:
+            v = sorted(wrong)[0]
+            return "reader returns the raw hex text for kind %d, whose alphabet differs: nibble %d is %r but the hex digit is %r" % (kind, v, wrong[v][1], wrong[v][0])
+        return None
+    table = res[1]
+    if "range" in table:
+        return "reader loops over range%s instead of every nibble" % (table["range"],)
+    for (last, v), out in sorted(table.items(), key=str):
+        is_filler = bool(flag) and last and v == 15
+        is_symbol = v in symbols and not (bool(flag) and last)
+        if is_filler:
+            if out != "skip" and out != "none":
+                return "the odd-length filler nibble is not dropped (emitted as %s)" % (out,)
+            continue
+        if not is_symbol:
+            continue
+        want = symbols[v]
+        if want is None:
+            return "nibble %d is written by the packer but has no unpack entry" % v
+        if out in ("skip", "none"):
+            return "data nibble %d (%r) at the %s position is dropped" % (v, chr(want), "last" if last else "a non-final")
+        if isinstance(out, tuple):
+            if out[1] != kind or out[2] != v:
+                return "data nibble %d is unpacked as unpackByte(%s, %s)" % (v, out[1], out[2])
+        elif out.startswith("raw"):
+            hexa = HEXU if out.endswith("U") else HEXL
+            if hexa[v] != chr(want):
+                return "data nibble %d (%r) is emitted as the hex digit %r" % (v, chr(want), hexa[v])
+    return None
+
 
 
 # ------------------------------------------------------------------ C01.dict
@@ -801,6 +1216,7 @@ def run(ctx):
     ctx.rule("C01.tags", "emitted control bytes are dispatched with the matching length reader", floor=12)
     ctx.rule("C01.dbl", "double-byte token arithmetic is inverse", floor=2)
     ctx.rule("C01.pack", "packing tables and the packed header are inverse", floor=5)
+    ctx.rule("C01.unpack", "packed body: writer nibble layout / filler, reader abstractly executed per (kind, header byte)", floor=6)
     ctx.rule("C01.dict", "dictionary sizes / reserved entries", floor=4)
     ctx.rule("C01.eq", "tree equality compares every component, children in both directions with a fresh flag", floor=7)
     ctx.assume("frame < 16 MiB (enforced by C05.guard); list size < 65536 (no larger list form in the format); strings are Latin-1")
@@ -809,6 +1225,8 @@ def run(ctx):
     rule_class(ctx, widths)
     rule_tags(ctx)
     rule_dbl(ctx)
-    rule_pack(ctx)
+    tables = rule_pack(ctx)
+    if tables:
+        rule_unpack(ctx, tables)
     rule_dict(ctx)
     rule_eq(ctx)
